@@ -1,6 +1,7 @@
 package main
 
 import (
+	"time"
 	"regexp"
 	"strings"
 
@@ -22,12 +23,9 @@ var strRe = regexp.MustCompile(`\(str ([0-9a-f-]+) ([0-9a-f-]+)\)`)
 func stripQuoted(s string) string { return strRe.ReplaceAllString(s, "(str $2)") }
 
 func parseExprSafe(src string) (n ast.Node, err error, panicked interface{}) {
-	defer func() {
-		if e := recover(); e != nil {
-			panicked = e
-		}
-	}()
-	n, err = parse.Expr(src)
+	if c := guarded(5*time.Second, func() { n, err = parse.Expr(src) }); c != "" {
+		panicked = c
+	}
 	return
 }
 
